@@ -130,6 +130,81 @@ theorem C15_unmarshal_marshal (p : GwPacket) (bs : Bytes) (h : marshal p = .ok b
               simp [unmarshal, canon, hid, hv, ht, idPushData, idPullData, idPullResp, idTxAck]
             · cases h
 
+/-- What a datagram keeps when it is re-encoded: the types without a body lose trailing octets,
+    PULL_DATA keeps its 12 octets. -/
+def canonD (d : Bytes) : Bytes :=
+  let id := (d.getD 3 0#8).toNat
+  if id = 1 ∨ id = 4 then d.take 4 else if id = 2 then d.take 12 else d
+
+theorem byte_back (b : Byte) : byteOf b.toNat = b := by simp [byteOf]
+
+theorem tok_back (b1 b2 : Byte) : byteOf ((b1.toNat * 256 + b2.toNat) / 256) = b1 ∧ byteOf (b1.toNat * 256 + b2.toNat) = b2 := by
+  have h1 := b1.isLt
+  have h2 := b2.isLt
+  constructor
+  · have : (b1.toNat * 256 + b2.toNat) / 256 = b1.toNat := by omega
+    rw [this]; exact byte_back b1
+  · apply BitVec.eq_of_toNat_eq
+    simp [byteOf]; omega
+
+/-- encode ∘ decode = canonD: an accepted datagram is reproduced octet for octet (up to what its
+    type does not carry). -/
+theorem C15_marshal_unmarshal (d : Bytes) (p : GwPacket) (h : unmarshal d = .ok p) : marshal p = .ok (canonD d) := by
+  unfold unmarshal at h
+  split at h
+  · cases h
+  · rename_i hlen
+    match d, hlen with
+    | d0 :: d1 :: d2 :: d3 :: rest, _ =>
+      obtain ⟨t1, t2⟩ := tok_back d1 d2
+      simp only [List.getD_cons_zero, List.getD_cons_succ, List.drop_succ_cons, List.drop_zero] at h
+      have hpad : ∀ (r : Bytes), 8 ≤ r.length → pad8 (r.take 8) = r.take 8 := by
+        intro r hr
+        unfold pad8
+        rw [List.take_append_of_le_length (by simp; omega)]
+        exact List.take_of_length_le (by simp; omega)
+      have b3 : ∀ k : Nat, k < 256 → d3.toNat = k → d3 = BitVec.ofNat 8 k := by
+        intro k hk h; apply BitVec.eq_of_toNat_eq; simp [h]; omega
+      split at h
+      · rename_i hid
+        split at h
+        · cases h
+        · rename_i hl; cases h
+          have hr : 8 ≤ rest.length := by simp at hl; omega
+          have := b3 0 (by omega) hid
+          subst this
+          simp [marshal, canonD, idPushData, idPullAck, idPushAck, idPullData, t1, t2, byte_back, hpad rest hr]
+      · split at h
+        · rename_i hid; cases h
+          have := b3 1 (by omega) hid
+          subst this
+          simp [marshal, canonD, idPushData, idPullAck, idPushAck, idPullData, t1, t2, byte_back]
+        · split at h
+          · rename_i hid
+            split at h
+            · cases h
+            · rename_i hl; cases h
+              have hr : 8 ≤ rest.length := by simp at hl; omega
+              have := b3 2 (by omega) hid
+              subst this
+              simp [marshal, canonD, idPushData, idPullAck, idPushAck, idPullData, t1, t2, byte_back, hpad rest hr]
+          · split at h
+            · rename_i hid; cases h
+              have := b3 3 (by omega) hid
+              subst this
+              simp [marshal, canonD, idPushData, idPullAck, idPushAck, idPullData, idPullResp, t1, t2, byte_back]
+            · split at h
+              · rename_i hid; cases h
+                have := b3 4 (by omega) hid
+                subst this
+                simp [marshal, canonD, idPushData, idPullAck, idPushAck, idPullData, idPullResp, t1, t2, byte_back]
+              · split at h
+                · rename_i hid; cases h
+                  have := b3 5 (by omega) hid
+                  subst this
+                  simp [marshal, canonD, idPushData, idPullAck, idPushAck, idPullData, idPullResp, idTxAck, t1, t2, byte_back]
+                · cases h
+
 /-- Non-vacuity. -/
 example : unmarshal [2#8, 0xAB#8, 0xCD#8, 2#8, 1#8, 2#8, 3#8, 4#8, 5#8, 6#8, 7#8, 8#8] =
     .ok ⟨2, 0xABCD, idPullData, [1#8, 2#8, 3#8, 4#8, 5#8, 6#8, 7#8, 8#8], []⟩ := by rfl
